@@ -249,7 +249,20 @@ void netsHistory(Sink &s, const std::string &id, vh::Rng &g) {
     std::string opLine, kind;
     bool threw = false;
     std::string exc;
-    if (g.chance(11, 20)) {
+    if (g.chance(1, 7)) {
+      // setNetWeights: the right number of weights two times in three, else one too many / too few / none
+      int nn = c.nbNets();
+      int nw = nn;
+      kind = "weights_valid";
+      if (g.chance(1, 3)) {
+        int m = (int)g.range(0, 2);
+        nw = m == 0 ? nn + 1 : (m == 1 ? std::max(0, nn - 1) : 0);
+        kind = nw == nn ? "weights_valid" : "weights_length";
+      }
+      opLine = "nvweights " + std::to_string(nw);
+      std::vector<float> ws(nw, 0.75f);
+      try { c.setNetWeights(ws); } catch (const std::exception &e) { threw = true; exc = vc::exClass(e); } catch (...) { threw = true; exc = "throw:other"; }
+    } else if (g.chance(11, 20)) {
       int k = (int)g.range(0, 4);
       std::vector<int> cells;
       for (int i = 0; i < k; ++i) cells.push_back(cellIn());
@@ -875,7 +888,7 @@ int main(int argc, char **argv) {
              "call all structural setters, Circuit::check() and a further placement call; after a failed legalization all "
              "members compared; after every setter call (accepted or refused) and every placement call (nested or not, "
              "returned or thrown) every per-cell getter must return nbCells() entries (size_oracle_checks), and the size "
-             "semantics must predict all member lengths (size_correspondence_lines); three value histories of the net arrays per instance (5..14 addNet/setNets calls on a fresh Circuit(0..6), valid or malformed in one of 12 ways: nv_* counts; the real netLimits_/pinCells_ equal the model's after every call; oracle: value invariant, Circuit::check(), every getter index in range, refused call changes nothing).  non-trivial = instance that executed at least one placement call ending by an exception; "
+             "semantics must predict all member lengths (size_correspondence_lines); three value histories of the net arrays per instance (5..14 addNet/setNets/setNetWeights calls on a fresh Circuit(0..6), valid or malformed in one of 13 ways: nv_* counts; the real netLimits_/pinCells_ equal the model's after every call; oracle: value invariant, Circuit::check(), every getter index in range, refused call changes nothing).  non-trivial = instance that executed at least one placement call ending by an exception; "
              "distinct by hash of the circuit";
   long long n = a.thorough() ? 3000 : (a.search() ? 600 : 300);
   std::vector<std::pair<uint64_t, long long>> ks;  // (seed, k)
